@@ -334,6 +334,14 @@ func shapes() []shape {
 		}
 		return proxied(coinsTransfer(to, 100), okF, 0), to
 	}})
+	// the inner transaction is an evm call whose CONTRACT is the blacklisted party (its To is the evm executor)
+	l = append(l, shape{Name: "proxied:inner-evm-contract:0x", Exec: true, Build: func(b bool) (*types.Transaction, string) {
+		to := spR["0x-lower"]
+		if b {
+			to = spX["0x-lower"]
+		}
+		return proxied(evmTx("evm", to, []byte{1, 2, 3, 4}), okF, 0), to
+	}})
 	l = append(l, shape{Name: "proxied:signer:0x", Exec: true, Build: func(b bool) (*types.Transaction, string) {
 		if b {
 			return proxied(coinsTransfer(okR.b58, 100), blkX, 0), ""
@@ -547,6 +555,8 @@ func sgn(x int64) int {
 // fingerprints name the position and the spelling class, not the concrete address
 func fpShape(s string) string {
 	switch {
+	case strings.HasPrefix(s, "proxied:inner-evm-contract"):
+		return "proxied-envelope-inner-evm-contract"
 	case strings.HasPrefix(s, "proxied:inner-to"):
 		return "proxied-envelope-inner-recipient"
 	case strings.HasPrefix(s, "proxied:signer"):
